@@ -1320,6 +1320,24 @@ impl Gen {
             let delta = *self.rng.pick(&[0u64, 56, 300, 2000, 9000, 30000, 70000]);
             let pos = (1 + self.rng.usize(5)).min(ops.len());
             ops.insert(pos, Op::Inflate(n * 4 * 1024 * 1024 - delta));
+            if matches!(self.p.prop, "C04" | "C15") && self.rng.chance(1, 16) {
+                // and a few events of megabytes, so that one life of the store crosses two or three
+                // chunk boundaries (state kept beside the map drifts only over several growths)
+                let nbig = 2 + self.rng.usize(2);
+                let mut at_pos = pos + 1;
+                for _ in 0..nbig {
+                    let mut e = self.new_event();
+                    e.kind = 1;
+                    e.tags.clear();
+                    let len = *self.rng.pick(&[1_500_000usize, 2_800_000, 4_190_000, 4_300_000]) + self.rng.usize(4000);
+                    let seed = self.rng.next();
+                    e.content = (0..len).map(|i| (seed.wrapping_mul(i as u64 + 17) >> 13) as u8).collect();
+                    self.apply_store_to_gen_model(&e);
+                    at_pos = (at_pos + self.rng.usize(3)).min(ops.len());
+                    ops.insert(at_pos, Op::Store(e));
+                    at_pos += 1;
+                }
+            }
         }
         if self.rng.chance(self.p.drain_pct, 100) {
             // remove every retrievable event by a mix of paths; afterwards all indexes must be empty
